@@ -31,7 +31,7 @@ COMPONENTS = {
              'run family: eps-MOEA / OMOPSO / SMPSO / PSOGA loops'],
     'stub': ['user objective (run family)', 'PRNG seam', 'joblib', 'time.time', 'uuid1'],
 }
-PROBES_EXPECTED = ['infinite_cost_tie', 'truncated_again_smaller', 'archive_family', 'run_family', 'reorder', 'duplicate', 'evicts_two_or_more', 'duplicate_offer_rejected',
+PROBES_EXPECTED = ['same_object_offered_again', 'batch_entry_points', 'infinite_cost_tie', 'truncated_again_smaller', 'archive_family', 'run_family', 'reorder', 'duplicate', 'evicts_two_or_more', 'duplicate_offer_rejected',
                    'dominated_offer_rejected', 'default_comparator_after_smaller_problem', 'twin_design_vectors', 'infeasible_offers', 'real_valued_violation_degree', 'truncate_checked', 'eps_comparator', 'pareto_comparator']
 
 
@@ -62,9 +62,24 @@ def _deliver(ctx, arch, offers, order, label, cmp_name):
     """deliver offers (list of _Sol) in `order`; oracle after every add; returns final content set"""
     site = 'Archive.add'
     offered = []
+    last_obj = {}
     for pos, idx in enumerate(order):
         s = offers[idx]
         sol = _Sol(list(s.costs_signed), s.tag, s.features['crowding_distance'], s.vector)
+        if idx in last_obj and any(x is last_obj[idx] for x in arch) and ctx.D.dec('work', ('reoffer', label, pos), 2) == 1:
+            # the very same object is offered again while it is a member (a population passed to the archive twice): a repeat
+            sol = last_obj[idx]
+            ctx.probe('same_object_offered_again')
+            before = list(arch)
+            res = arch.add(sol)
+            ctx.check()
+            if res or [x for x in arch if x is sol] != [sol] or len(arch) != len(before):
+                ctx.violation('add_result', site, '%s order, add #%d: the member %r offered again returned %r and the archive went '
+                              'from %d to %d members' % (label, pos, sol.costs_signed, res, len(before), len(arch)))
+                return None
+            offered.append(tuple(sol.costs_signed))
+            continue
+        last_obj[idx] = sol
         before = list(arch)
         try:
             res = arch.add(sol)
@@ -178,6 +193,23 @@ def _archive(D):
             if c is None:
                 break
             finals.append((label, c))
+        if not ctx.violations and len(finals) == 3:
+            # the batch entry points: extend(list) and += offer every element, whatever happened to the ones before it
+            for how in ('extend', 'iadd'):
+                a2 = fresh()
+                batch = [_Sol(list(offers[i].costs_signed), offers[i].tag, offers[i].features['crowding_distance'], offers[i].vector)
+                         for i in o2]
+                if how == 'extend':
+                    a2.extend(batch)
+                else:
+                    a2 += batch
+                ctx.check()
+                ctx.probe('batch_entry_points')
+                if set(_content(a2)) != finals[1][1]:
+                    ctx.violation('content_ne_reference', 'Archive.' + ('extend' if how == 'extend' else '__iadd__'),
+                                  '%s comparator: %s(batch) leaves %r, adding the same offers one by one leaves %r'
+                                  % (cmp_name, how, sorted(_content(a2)), sorted(finals[1][1])))
+                    break
         if not ctx.violations and len(finals) == 3:
             if not (finals[0][1] == finals[1][1] == finals[2][1]):
                 ctx.violation('order_dependent', 'Archive.add', '%s comparator: final contents differ between delivery orders: %r'
